@@ -1,0 +1,10 @@
+//go:build verif
+
+package channels
+
+// Contracts for property C02. Comment-only; read by /verif/engine.
+
+//@ props C02
+
+//@ func NewID
+//@   pure
